@@ -22,6 +22,6 @@ DELIVER, inside {wt}/_seed/:
  - patch.diff : `git diff` of your change against HEAD (library source files only),
  - a demonstration: demo.c (or a short script) plus demo.sh containing the exact build+run command; it must exit 0 on the ORIGINAL code and non-zero (printing what went wrong) WITH your change, and it must demonstrate a violation of the property as stated (through the public API or a CPU-specific entry point),
  - meta.json : {{"property":"{pid}","summary":"...","needs_to_manifest":"...","files_changed":[...],"ran":["commands you ran and their outcomes"]}}.
-Verify all of it yourself: (1) original tree: demo passes; (2) patched tree: builds, `check` passes, demo fails. Leave the worktree with the patch APPLIED. Final report: the idea, why the tests miss it, what exactly is needed to trigger it, and the commands you ran.""")
+NEVER use `git stash` (the stash is shared between all worktrees of this repository and other people are working in sibling worktrees): to test the original tree use `git diff > /tmp/mine.diff; git checkout -- .; ...; git apply /tmp/mine.diff`. Verify all of it yourself: (1) original tree: demo passes; (2) patched tree: builds, `check` passes, demo fails. Leave the worktree with the patch APPLIED. Final report: the idea, why the tests miss it, what exactly is needed to trigger it, and the commands you ran.""")
 open(wt + "/_ASSIGNMENT.md", "w").write(txt)
 print(wt)
